@@ -465,6 +465,7 @@ func init() {
 // history generator
 
 var heapDocs = []string{
+	`{"k\u00DCey":"caf\u00E9 \uD83D\uDE00","\u004B":["\u00e9","\uABCD"]}`,
 	`{"a":[1,2,3],"b":{"c":true,"d":null},"e":"s"}`, `[[1,2],[3],[]]`, `[1,2]`, `{"k":{"k":{"k":1}}}`, `[{"a":1},{"a":2}]`,
 	`7`, `"x"`, `null`, `{}`, `[]`, `{"a":1,"a":2}`, ` [ 10 , 20 , 30 ] `, `{"x":[{"y":[1]}]}`, `[1e400]`, `{"":0,"'":1,"\\":2}`,
 }
@@ -868,6 +869,176 @@ func streamHeap(o *Out, r *Rng, tier string) {
 		}
 		// second execution of the same history with the property probes after every step
 		probeHistory(o, g.ops)
+	}
+	streamComparePairs(o, r.Fork(777), tier)
+}
+
+// variantOf returns a JSON text that is value-equal to `base` under another spelling (whitespace, key order, number
+// and string spelling), or differs from it in exactly one leaf, one key or one length.
+func variantOf(r *Rng, v interface{}, mutate *bool) string {
+	switch t := v.(type) {
+	case nil:
+		if *mutate && r.Chance(30) {
+			*mutate = false
+			return "false"
+		}
+		return "null"
+	case bool:
+		if *mutate && r.Chance(30) {
+			*mutate = false
+			t = !t
+		}
+		return strconv.FormatBool(t)
+	case float64:
+		if *mutate && r.Chance(30) {
+			*mutate = false
+			t = t + 1
+		}
+		switch r.Intn(3) {
+		case 0:
+			return strconv.FormatFloat(t, 'g', -1, 64)
+		case 1:
+			return strconv.FormatFloat(t, 'e', -1, 64)
+		}
+		return strconv.FormatFloat(t, 'f', -1, 64)
+	case string:
+		if *mutate && r.Chance(30) {
+			*mutate = false
+			t = t + "x"
+		}
+		var b strings.Builder
+		b.WriteByte('"')
+		for _, c := range []byte(t) {
+			if c >= 0x20 && c < 0x7f && c != '"' && c != '\\' && r.Chance(70) {
+				b.WriteByte(c)
+			} else if c < 0x80 {
+				fmt.Fprintf(&b, "\\u%04X", c)
+			} else {
+				b.WriteByte(c)
+			}
+		}
+		b.WriteByte('"')
+		return b.String()
+	case []interface{}:
+		items := make([]string, 0, len(t)+1)
+		drop := -1
+		if *mutate && len(t) > 0 && r.Chance(15) {
+			*mutate = false
+			drop = r.Intn(len(t))
+		}
+		for i, x := range t {
+			if i == drop {
+				continue
+			}
+			items = append(items, variantOf(r, x, mutate))
+		}
+		if *mutate && r.Chance(10) {
+			*mutate = false
+			items = append(items, "0")
+		}
+		return "[" + ws1(r) + strings.Join(items, ws1(r)+","+ws1(r)) + ws1(r) + "]"
+	case map[string]interface{}:
+		keys := make([]string, 0, len(t))
+		for k := range t {
+			keys = append(keys, k)
+		}
+		sort.Strings(keys)
+		// another key order
+		for i := len(keys) - 1; i > 0; i-- {
+			j := r.Intn(i + 1)
+			keys[i], keys[j] = keys[j], keys[i]
+		}
+		var items []string
+		for _, k := range keys {
+			kk := k
+			if *mutate && r.Chance(15) {
+				*mutate = false
+				kk = k + "_"
+			}
+			one := false
+			items = append(items, variantOf(r, kk, &one)+ws1(r)+":"+ws1(r)+variantOf(r, t[k], mutate))
+		}
+		return "{" + ws1(r) + strings.Join(items, ws1(r)+","+ws1(r)) + ws1(r) + "}"
+	}
+	return "null"
+}
+
+func ws1(r *Rng) string { return []string{"", "", " ", "\n", "\t "}[r.Intn(5)] }
+
+var cmpDocs = []string{
+	`[1,2,3]`, `[1,[2,3],{"a":[4,5,6],"b":"x"}]`, `{"a":1,"b":[1,2,3],"c":{"d":null,"e":[true,false]}}`, `[[1,2],[3,4],[5,6]]`, `{"k":"v","n":[0,-0,1.5]}`,
+	`"str"`, `12`, `[]`, `{}`, `[null,[null,[null]]]`, `{"x":{"y":{"z":[1,2,{"w":3}]}}}`, `["a","b","c","d"]`,
+}
+
+// streamComparePairs: C17's pair generator — equal values under different spellings / key orders, and values that
+// differ in exactly one leaf, one key or one length; compared as wholes and node by node.
+func streamComparePairs(o *Out, r *Rng, tier string) {
+	n := 150
+	if tier == "thorough" {
+		n = 2500
+	}
+	for i := 0; i < n; i++ {
+		base := r.Pick(cmpDocs)
+		v, _, err := refDecode([]byte(base))
+		if err != nil {
+			continue
+		}
+		mutate := r.Chance(60)
+		wanted := mutate
+		other := variantOf(r, v, &mutate)
+		if wanted && !mutate {
+			o.Stat("cmp.differs-in-one-place")
+		} else {
+			o.Stat("cmp.equal-other-spelling")
+		}
+		p := &probeRun{o: o, s: &Session{}, ref: map[*ajson.Node]*Ref{}}
+		emit := func(f []string) {
+			obs := p.step(f, true)
+			o.Emit(reqLine(f), obs, "")
+		}
+		emit([]string{"reset"})
+		emit([]string{"parse", hexOrDash([]byte(base))})
+		emit([]string{"parse", hexOrDash([]byte(other))})
+		if len(p.s.handles) < 2 {
+			continue
+		}
+		for _, op := range []string{"eq", "neq", "le", "leq", "ge", "geq"} {
+			emit([]string{op, "0", "1"})
+			emit([]string{op, "1", "0"})
+		}
+		// corresponding inner nodes: the same navigation on both sides
+		a, b := 0, 1
+		for depth := 0; depth < 3; depth++ {
+			na, nb := p.s.handles[a], p.s.handles[b]
+			if na.Size() == 0 || nb.Size() == 0 || na.Type() != nb.Type() {
+				break
+			}
+			var fa, fb []string
+			if na.IsArray() {
+				k := strconv.Itoa(r.Intn(na.Size()))
+				fa, fb = []string{"getidx", strconv.Itoa(a), k}, []string{"getidx", strconv.Itoa(b), k}
+			} else {
+				keys := na.Keys()
+				sort.Strings(keys)
+				k := hexOrDash([]byte(keys[r.Intn(len(keys))]))
+				fa, fb = []string{"getkey", strconv.Itoa(a), k}, []string{"getkey", strconv.Itoa(b), k}
+			}
+			before := len(p.s.handles)
+			emit(fa)
+			if len(p.s.handles) == before {
+				break
+			}
+			a = len(p.s.handles) - 1
+			before = len(p.s.handles)
+			emit(fb)
+			if len(p.s.handles) == before {
+				break
+			}
+			b = len(p.s.handles) - 1
+			emit([]string{"eq", strconv.Itoa(a), strconv.Itoa(b)})
+			emit([]string{r.Pick([]string{"le", "leq", "ge", "geq", "neq"}), strconv.Itoa(a), strconv.Itoa(b)})
+		}
+		emit([]string{"dump"})
 	}
 }
 
